@@ -209,7 +209,10 @@ func looksLikeTrace(s string) bool {
 func checkC13(dir string, c *c13Case) (kind, diff string, tags []string, nontrivial bool, timedOut bool, res *mainResult, out []byte) {
 	args := append(c.Flags.args(), c.Extra...)
 	outPath := filepath.Join(dir, "out.go")
-	os.Remove(outPath)
+	// the -o file exists already and is longer than anything the tool will write: "writes a
+	// complete parser" means the file holds the parser and nothing else afterwards
+	stale := bytes.Repeat([]byte("stale ) line } of an older, longer file\n"), 12000)
+	os.WriteFile(outPath, stale, 0o644)
 	if !c.ToStdout {
 		args = append(args, "-o", outPath)
 	}
@@ -230,6 +233,9 @@ func checkC13(dir string, c *c13Case) (kind, diff string, tags []string, nontriv
 		out = res.Stdout
 	} else {
 		out, _ = os.ReadFile(outPath)
+		if bytes.Equal(out, stale) {
+			out = nil // the tool did not write (it failed, or -x)
+		}
 	}
 	code := 0
 	if res.Exited {
